@@ -147,7 +147,23 @@ func compileOne(scratch, in string, cfg complib.Cfg, s setting) (err error, d co
 	} else {
 		o := rdb.CompilationOptions{NumCPU: s.workers, UseV2KeySyntax: cfg.V2, UseBuilder: s.mode == "builder",
 			BatchNumParallel: s.par, BatchSize: s.bs}
-		_, err = rdb.CompileToSpecificRDBVersion(in, out, o)
+		// a compilation that never returns (a deadlock between the parser, the batch limiter and the
+		// writers) must not hang the check: it is an outcome.  The bound is far above what a compile
+		// of these small files takes on a loaded machine (seconds); the stuck goroutines are abandoned.
+		done := make(chan error, 1)
+		go func() {
+			_, e := rdb.CompileToSpecificRDBVersion(in, out, o)
+			done <- e
+		}()
+		select {
+		case err = <-done:
+		case <-time.After(hangTimeout):
+			err = fmt.Errorf("HANG: compilation did not return within %v (mode %s, workers %d, BatchNumParallel %d, BatchSize %d)",
+				hangTimeout, s.mode, s.workers, s.par, s.bs)
+			if hangTimeout > 30*time.Second {
+				hangTimeout = 30 * time.Second // one long wait per run is enough to tell a hang from a slow disk
+			}
+		}
 	}
 	if err != nil {
 		return err, nil, nil
@@ -520,6 +536,9 @@ func runBuckets(c *bucketCase) {
 
 // generous, because the machine may be busy; after the first hang the later ones get little time
 var childTimeout = 90 * time.Second
+
+// hangTimeout bounds one in-process compilation (see compileOne)
+var hangTimeout = 240 * time.Second
 var hangSeen int32
 
 // cdbChildMain: childcdb:<in>:<outprefix>:<w1,w2,...> compiles in to <outprefix>.<i> with wi workers.
@@ -718,6 +737,7 @@ func run(a *hlib.Args, e *hlib.Emitter) error {
 	}
 	ncpu := numCPU()
 	if a.Replay != "" {
+		hangTimeout = 40 * time.Second
 		childTimeout = 20 * time.Second // replays (shrinking) must not wait long for a child that hangs
 		return replay(a, e, ncpu)
 	}
